@@ -4,7 +4,7 @@ import Hv.Generated.FactsC11
 namespace Hv.C11
 
 /-- The kernel-checked decision for the facts extracted from /repo on this run. -/
-theorem verdict : (classify Generated.factsC11).Sound (Holds (cfgOf Generated.factsC11))
+theorem verdict : (classify Generated.factsC11).Sound (HoldsAll Generated.factsC11)
     (HoldsPartial (cfgOf Generated.factsC11)) :=
   classify_sound _
 
@@ -20,6 +20,12 @@ theorem verdict : (classify Generated.factsC11).Sound (Holds (cfgOf Generated.fa
 #print axioms w_empty
 #print axioms w_patch
 #print axioms w_reindex
+#print axioms w_shift_deleted
+#print axioms w_shift_stale_copy
 #print axioms refutes_of_findings
+#print axioms no_deadlock_repaired
+#print axioms no_deadlock_beacon_first
+#print axioms deadlock_mixed_order
+#print axioms deadlock_mixed_order_clone
 
 end Hv.C11
